@@ -164,17 +164,49 @@ def exact(run, fx):
     run.selftest("mutation-map/insert+remove+assign", sorted(fm.get("seen", {})) == ["insert", "remove"] and sorted(fm.get("n", {})) == ["assign"], True)
 
 
-ALL = {"guards": guards, "exact": exact, "index_domain": index_domain, "follow": follow, "store": store, "downgrade": downgrade, "ambient": ambient, "panics": panic_sites, "locks": locks,
+def inlining(run, fx):
+    """the inliner itself, on the fixtures crate: every fn except the inl_* helpers counts as 'known'"""
+    from engine import facts, inline, mir as M
+    recs = facts.load_dir(facts.extract_fixtures())
+    known = set(M.strip_generics(r["def"]) for r in recs if r.get("rec") == "body" and r.get("kind") in ("Fn", "AssocFn")) - {F + "inl_helper", F + "inl_pred", F + "inl_async_helper"}
+    recs2, done = inline.inline_new_helpers(recs, known)
+    p2 = M.Program(recs2)
+    names = sorted(h for h, _w in done)
+    run.selftest("inline/helpers-inlined", names == sorted([F + "inl_helper", F + "inl_pred", F + "inl_async_helper (async)"]) and (F + "inl_helper") not in p2.bodies, True)
+
+    def guarded(fn, field="flag"):
+        b = p2.bodies.get(fn)
+        if b is None:
+            return False
+        bb = _call_bb(b, "::act")
+        return bb is not None and G.has_guard(p2, b, bb, pred="bool", polarity=False, fields=[field], owner="St", depth=0, interproc=False) is not None
+    run.selftest("inline/sync/action-under-callers-guard", guarded(F + "inl_caller"), True)
+    run.selftest("inline/async/action-under-callers-guard", guarded(F + "inl_async_caller::{closure#0}"), True)
+    # predicate helper with two result expressions: only what holds in both branches is implied (nothing about `flag`), but the
+    # assumption-restricted lowering finds it once the branch is fixed
+    b = p2.bodies.get(F + "inl_pred_caller")
+    ok = False
+    if b is not None:
+        bb = _call_bb(b, "::act")
+        sw = G.find_switch(p2, b, fields=["done"], owner="St")
+        if bb is not None and sw:
+            s_, tv, fv = sw[0]
+            ok = (G.has_guard(p2, b, bb, pred="bool", polarity=False, fields=["flag"], owner="St", depth=0, interproc=False, assume=((s_, fv),)) is not None
+                  and G.has_guard(p2, b, bb, pred="bool", polarity=False, fields=["flag"], owner="St", depth=0, interproc=False) is None)
+    run.selftest("inline/predicate-helper/branch-wise-lowering", ok, True)
+
+
+ALL = {"guards": guards, "exact": exact, "inlining": inlining, "index_domain": index_domain, "follow": follow, "store": store, "downgrade": downgrade, "ambient": ambient, "panics": panic_sites, "locks": locks,
        "tables": tables, "intervals": intervals, "provenance": provenance, "coverage": coverage}
 
 # which detector families each property's rules rely on
 USES = {
-    "C01": ["guards", "exact", "follow", "tables", "provenance"], "C03": ["guards", "exact", "follow", "store", "provenance"], "C04": ["guards", "exact", "tables"],
-    "C05": ["guards", "exact", "follow", "provenance"], "C06": ["guards", "exact", "follow"], "C07": ["guards", "exact", "follow"], "C08": ["guards", "exact", "follow", "downgrade", "provenance"],
-    "C09": ["guards", "exact", "tables", "panics", "provenance"], "C10": ["guards", "exact", "panics", "locks", "intervals"], "C11": ["guards", "exact", "intervals"],
-    "C12": ["guards", "exact", "tables", "coverage", "provenance"], "C13": ["guards", "exact", "follow", "provenance"], "C14": ["guards", "exact", "follow", "provenance"],
-    "C15": ["guards", "exact", "tables", "index_domain"], "C16": ["guards", "exact", "ambient", "provenance"], "C17": ["guards", "exact", "ambient", "panics", "follow"],
-    "C18": ["guards", "exact", "panics", "provenance", "coverage"], "C19": ["guards"], "C20": ["guards", "exact", "ambient"],
+    "C01": ["guards", "exact", "inlining", "follow", "tables", "provenance"], "C03": ["guards", "exact", "inlining", "follow", "store", "provenance"], "C04": ["guards", "exact", "inlining", "tables"],
+    "C05": ["guards", "exact", "inlining", "follow", "provenance"], "C06": ["guards", "exact", "inlining", "follow"], "C07": ["guards", "exact", "inlining", "follow"], "C08": ["guards", "exact", "inlining", "follow", "downgrade", "provenance"],
+    "C09": ["guards", "exact", "inlining", "tables", "panics", "provenance"], "C10": ["guards", "exact", "inlining", "panics", "locks", "intervals"], "C11": ["guards", "exact", "inlining", "intervals"],
+    "C12": ["guards", "exact", "inlining", "tables", "coverage", "provenance"], "C13": ["guards", "exact", "inlining", "follow", "provenance"], "C14": ["guards", "exact", "inlining", "follow", "provenance"],
+    "C15": ["guards", "exact", "inlining", "tables", "index_domain"], "C16": ["guards", "exact", "inlining", "ambient", "provenance"], "C17": ["guards", "exact", "inlining", "ambient", "panics", "follow"],
+    "C18": ["guards", "exact", "inlining", "panics", "provenance", "coverage"], "C19": ["guards"], "C20": ["guards", "exact", "inlining", "ambient"],
 }
 
 
